@@ -14,7 +14,10 @@
 //!     structural, unknown, ill-typed, the password import), retention modes, refresh / active
 //!     states with the current or a stale cookie;
 //!   * purge-and-set of an agreement's `sync_yield_authority`;
-//!   * modifications of entries by a read-write (or read-only) member of the granted group.
+//!   * modifications of entries by a read-write (or read-only) member of the granted group;
+//!   * *yield-drain motifs* and three scripted histories (worlds 3, 7, 11, ...): an agreement hands
+//!     attributes over, then EVERY agreement's yield set is purged (each change its own committed
+//!     transaction), then the user tries each attribute that had been handed over and a control.
 //! Every operation is also sent to the Lean model (`km_c50`, `Kanidm.SyncScope.stepRes`), which
 //! holds the tracked part of the database across the history; result class and resulting tracked
 //! entries are compared after every operation (`impl-vs-model`).
@@ -36,7 +39,8 @@
 //!      `Synch` identity with `Synchronise` scope, is refused;
 //!   O6 a user's accepted modification of a synchronised entry changes only attributes in the
 //!      parent agreement's stored yield set or the four session / credential-reset attributes
-//!      (server-derived attributes excepted).
+//!      (server-derived attributes excepted); the yield set is read from the stored agreement entry
+//!      in the request's own transaction, never from the server's cached access-control state.
 use hlib::*;
 use kanidm_proto::internal::Filter as ProtoFilter;
 use kanidm_proto::scim_v1::{
@@ -660,8 +664,143 @@ fn opening(world: u64, p: &Pools) -> Vec<Op> {
             sync(0, St::Current, vec![], Ret::Delete(vec![person_a])),
             sync(0, St::Current, vec![acct(person_a, vec![])], Ret::Ignore),
         ],
-        _ => vec![],
+        _ => scripted_yield_history((world / 4) % 3, p, &acct, &sync),
     }
+}
+
+/// Scripted histories about *taking a yielded attribute back* (always run: worlds 3, 7, 11 of every
+/// tier). The access controls cache the map agreement -> yielded attributes and rebuild it when an
+/// agreement entry changes; the property speaks about the STORED yield set at the time of the
+/// user's request. Seeded change this closes: the rebuilt map was only installed when non-empty, so
+/// purging the last yield set left the stale one in force.
+fn scripted_yield_history(
+    variant: u64,
+    p: &Pools,
+    acct: &dyn Fn(u128, Vec<(&str, AVal)>) -> SEntry,
+    sync: &dyn Fn(u8, St, Vec<SEntry>, Ret) -> Op,
+) -> Vec<Op> {
+    let person_a = p.a[0] & !1;
+    let person_b = p.b[0] & !1;
+    let group_a = p.a[1] | 1;
+    // (single-valued attributes: replace = purge + present in one request, otherwise the schema refuses
+    // a second value after access control has already said yes — and nothing would be observable)
+    let user = |target: u128, m: Vec<UMod>| Op::User { ident: IdentSpec::User(1), target, mods: m };
+    let set = |a: &str, v: &str| vec![UMod::Purged(a.into()), UMod::Present(a.into(), v.into())];
+    let yields = |agreement: u8, attrs: &[&str]| Op::Yield { agreement, attrs: Some(attrs.iter().map(|s| s.to_string()).collect()) };
+    let purge = |agreement: u8| Op::Yield { agreement, attrs: None };
+    match variant {
+        // one agreement yields, then nobody does; again after the yield set was reinstated
+        0 => vec![
+            sync(0, St::Refresh, vec![acct(person_a, vec![("legalname", AVal::Str("ln0".into()))])], Ret::Ignore),
+            yields(0, &["legalname"]),
+            user(person_a, set("legalname", "s0")),
+            user(person_a, set("displayname", "s1")),
+            purge(0),
+            user(person_a, set("legalname", "s2")),
+            user(person_a, vec![UMod::Purged("legalname".into())]),
+            user(person_a, set("displayname", "s3")),
+            yields(0, &["displayname", "legalname"]),
+            user(person_a, set("displayname", "s4")),
+            user(person_a, set("legalname", "s5")),
+            purge(0),
+            purge(1),
+            user(person_a, set("displayname", "s6")),
+            user(person_a, set("legalname", "s7")),
+            sync(0, St::Current, vec![acct(person_a, vec![("legalname", AVal::Str("ln1".into()))])], Ret::Ignore),
+        ],
+        // two agreements yield; one is emptied (the other still yields); then both are empty
+        1 => vec![
+            sync(0, St::Refresh, vec![acct(person_a, vec![])], Ret::Ignore),
+            sync(1, St::Refresh, vec![acct(person_b, vec![])], Ret::Ignore),
+            yields(0, &["legalname"]),
+            yields(1, &["displayname"]),
+            user(person_a, set("legalname", "t0")),
+            user(person_b, set("displayname", "t1")),
+            user(person_a, set("displayname", "t2")),
+            user(person_b, set("legalname", "t3")),
+            purge(0),
+            user(person_a, set("legalname", "t4")),
+            user(person_b, set("displayname", "t5")),
+            user(person_b, set("legalname", "t6")),
+            purge(1),
+            user(person_b, set("displayname", "t7")),
+            user(person_a, set("legalname", "t8")),
+            user(person_b, set("legalname", "t9")),
+            user(person_a, set("displayname", "t10")),
+        ],
+        // a group: description and member handed over, taken back, written by the agreement again;
+        // the other agreement's yield set comes and goes in between
+        _ => vec![
+            sync(
+                0,
+                St::Refresh,
+                vec![SEntry {
+                    id: group_a,
+                    ext: Some(format!("x{:x}", group_a & 0xffff_ffff_ffff)),
+                    schemas: vec![format!("{SCIM_SCHEMA_SYNC_1}group")],
+                    attrs: vec![("description".into(), AVal::Str("d0".into())), ("name".into(), AVal::Str(name_of(group_a, 0)))],
+                }],
+                Ret::Ignore,
+            ),
+            yields(0, &["description", "member"]),
+            user(group_a, set("description", "g0")),
+            user(group_a, vec![UMod::PresentRef("member".into(), p.natives[0])]),
+            purge(0),
+            user(group_a, set("description", "g1")),
+            user(group_a, vec![UMod::PresentRef("member".into(), p.natives[1])]),
+            user(group_a, vec![UMod::Purged("member".into())]),
+            yields(1, &["legalname"]),
+            user(group_a, set("description", "g2")),
+            purge(1),
+            user(group_a, set("description", "g3")),
+            user(group_a, vec![UMod::Purged("description".into())]),
+        ],
+    }
+}
+
+/// Generator bias (a *motif*, several operations): some agreement hands attributes over, then EVERY
+/// agreement's yield set is purged (either order), then the user tries each attribute that had been
+/// handed over and one that never was, on an entry of that agreement.
+fn yield_drain_motif(rng: &mut Rng, p: &Pools) -> Vec<Op> {
+    let ag = rng.below(2) as u8;
+    let own = if ag == 0 { &p.a } else { &p.b };
+    let target = *rng.pick(&own[4..8]);
+    let pool: &[&str] = if (target & 1) == 1 { &["description", "member"] } else { &["legalname", "displayname"] };
+    let mut yset: BTreeSet<String> = BTreeSet::new();
+    yset.insert(rng.pick(pool).to_string());
+    if rng.chance(1, 3) {
+        yset.insert(rng.pick(pool).to_string());
+    }
+    if rng.chance(1, 3) {
+        yset.insert(rng.pick(YIELDABLE).to_string());
+    }
+    let umod = |rng: &mut Rng, a: &str| {
+        if a == "member" {
+            vec![UMod::PresentRef("member".into(), *rng.pick(&p.natives))]
+        } else if rng.chance(1, 5) {
+            vec![UMod::Purged(a.into())]
+        } else {
+            // replace (the attributes are single-valued: a bare `Present` of a second value is a schema error)
+            vec![UMod::Purged(a.into()), UMod::Present(a.into(), format!("m{}", rng.below(1000)))]
+        }
+    };
+    let mut v = vec![Op::Yield { agreement: ag, attrs: Some(yset.iter().cloned().collect()) }];
+    if rng.chance(1, 2) {
+        v.push(Op::Yield { agreement: 1 - ag, attrs: Some(vec![rng.pick(YIELDABLE).to_string()]) });
+    }
+    if rng.chance(1, 2) {
+        let a = rng.pick(pool).to_string();
+        let m = umod(rng, &a);
+        v.push(Op::User { ident: IdentSpec::User(1), target, mods: m });
+    }
+    let first = rng.below(2) as u8;
+    v.push(Op::Yield { agreement: first, attrs: None });
+    v.push(Op::Yield { agreement: 1 - first, attrs: None });
+    for a in pool {
+        let m = umod(rng, a);
+        v.push(Op::User { ident: IdentSpec::User(1), target, mods: m });
+    }
+    v
 }
 
 fn gen_history(seed: u64, world: u64, n: u64, boundary_heavy: bool) -> Vec<Op> {
@@ -670,8 +809,13 @@ fn gen_history(seed: u64, world: u64, n: u64, boundary_heavy: bool) -> Vec<Op> {
     let mut v = opening(world, &p);
     v.push(seed_op(&mut rng, &p, 0));
     v.push(seed_op(&mut rng, &p, 1));
+    // (generation is sequential: a longer history has the shorter one as a prefix, so `keep` replays)
     while (v.len() as u64) < n {
-        v.push(gen_op(&mut rng, &p, boundary_heavy));
+        if rng.chance(1, if boundary_heavy { 6 } else { 14 }) {
+            v.extend(yield_drain_motif(&mut rng, &p));
+        } else {
+            v.push(gen_op(&mut rng, &p, boundary_heavy));
+        }
     }
     v
 }
@@ -1225,6 +1369,7 @@ async fn run_history(r: &mut Run<'_>, ops: &[Op], keep: &[usize]) -> Outcome {
     }
     let acps = w.acps_m(r.n);
     let mut done: Vec<usize> = vec![];
+    let mut ever_yielded = false;
     for (step, &i) in keep.iter().enumerate() {
         let op = &ops[i];
         done.push(i);
@@ -1439,6 +1584,24 @@ async fn run_history(r: &mut Run<'_>, ops: &[Op], keep: &[usize]) -> Outcome {
                         viol.push(("c50-sync-parent-changed".into(), "sync_parent_uuid unchanged".into(), format!("entry {}: {:?} -> {:?}", Uuid::from_u128(a.uuid), a.parent, b.parent)));
                     }
                 }
+            }
+        }
+        // coverage of the situation the yield cache turns on: a user request against a synchronised
+        // entry while NO stored agreement yields anything, after some agreement did in this history
+        if !r.quiet {
+            match op {
+                Op::Yield { attrs: Some(_), .. } if committed => ever_yielded = true,
+                Op::User { target, .. } if pre_by_uuid.get(target).map(|f| f.classes.contains("sync_object") && f.live()).unwrap_or(false) => {
+                    let any = pre.values().any(|f| !f.yield_auth.is_empty());
+                    let own = pre_by_uuid.get(target).and_then(|f| f.parent).and_then(|p| pre_by_uuid.get(&p)).map(|f| !f.yield_auth.is_empty()).unwrap_or(false);
+                    r.rep.count(match (own, any, ever_yielded) {
+                        (true, _, _) => "user-on-synced:parent-yields",
+                        (false, true, _) => "user-on-synced:only-other-agreement-yields",
+                        (false, false, true) => "user-on-synced:nobody-yields-after-someone-did",
+                        (false, false, false) => "user-on-synced:nobody-ever-yielded",
+                    });
+                }
+                _ => {}
             }
         }
         if res.is_err() || !committed {
